@@ -147,33 +147,57 @@ def run_case(ctx, rng, n, workers, ncons, n_pre, with_store, gated, settle, hold
     hold = {"n": 0}
     if hold_lock and with_store:
         # "holder keeps the write lock while others retry": pause between execute and commit
+        def maybe_hold(sql):
+            if sql.lstrip().upper().startswith("INSERT INTO INDIVIDUALS") and hold["n"] < 3:
+                hold["n"] += 1
+                time.sleep(0.12)
+
         class Cur:
             def __init__(s, c):
                 s.c = c
 
             def execute(s, sql, *a):
-                r = s.c.execute(sql, *a)
-                if sql.startswith("INSERT INTO individuals") and hold["n"] < 3:
-                    hold["n"] += 1
-                    time.sleep(0.12)
-                return r
+                s.c.execute(sql, *a)
+                maybe_hold(sql)
+                return s
 
-            def fetchall(s):
-                return s.c.fetchall()
+            def executemany(s, sql, *a):
+                s.c.executemany(sql, *a)
+                maybe_hold(sql)
+                return s
+
+            def __iter__(s):
+                return iter(s.c)
+
+            def __getattr__(s, name):
+                return getattr(s.c, name)
 
         class Conn:
             def __init__(s, *a, **k):
                 k["timeout"] = 0.03
                 s.c = _real_connect(*a, **k)
 
-            def cursor(s):
-                return Cur(s.c.cursor())
+            def cursor(s, *a, **k):
+                return Cur(s.c.cursor(*a, **k))
 
-            def commit(s):
-                return s.c.commit()
+            def execute(s, sql, *a):
+                return s.cursor().execute(sql, *a)
 
-            def close(s):
-                return s.c.close()
+            def executemany(s, sql, *a):
+                return s.cursor().executemany(sql, *a)
+
+            def __enter__(s):
+                return s
+
+            def __exit__(s, et, ev, tb):
+                if et is None:
+                    s.c.commit()
+                else:
+                    s.c.rollback()
+                return False
+
+            def __getattr__(s, name):
+                return getattr(s.c, name)
         sqlite3.connect = lambda *a, **k: Conn(*a, **k)
     try:
         with open(os.devnull, "w") as devnull, contextlib.redirect_stdout(devnull), contextlib.redirect_stderr(devnull):
